@@ -10,12 +10,10 @@ Verdict: accept/reject must equal the table ("exactly when"), the returned messa
 """
 import json
 
-CFGS = {"w3": (200, 206, 3, 203, 203), "w1": (200, 206, 1, 203, 203), "w2": (200, 206, 2, 204, 205)}
+CFGS = {"w3": (200, 206, 3, 203, 203), "w1": (200, 206, 1, 203, 203), "w2": (200, 206, 2, 204, 205), "hdr": (200, 206, 1, 203, 203)}
 ROUTERS_QUICK = ["eth", "bsc", "heco"]
-ROUTERS_ALL = ["eth", "bsc", "bytom", "heco", "hsc", "pixie"]
-UNCOVERED = ["msc (clique header sync: no chain adapter; handler code has the same shape)",
-             "polygon bor (span/sprint header sync: no chain adapter; same handler shape)",
-             "quorum (header is supplied with the proof and checked against the validator set; no adapter)"]
+ROUTERS_ALL = ["eth", "bsc", "bytom", "heco", "hsc", "pixie", "msc", "bor"]
+UNCOVERED = []
 
 
 def _table(ctx, b, router, name, rows, variants, stats):
@@ -66,14 +64,22 @@ def run(ctx):
         ctx.sample({"cfg": name, "accepted_row": acc[0], "rejected_row": [r for r in rows if not r["acc"] and r["true"] and r["conf"]][0]})
         for router in routers:
             _table(ctx, b, router, name, rows, variants, stats)
+    if not q:
+        # quorum: the header travels with the claim (EvmProof Mode = "header")
+        rows = ctx.gen("EvmProof", "EvmProof_hdr.cfg", "ROW", timeout=1200)
+        if len(rows) < 1000 or not [r for r in rows if r["acc"]]:
+            ctx.fail("bad table from EvmProof_hdr.cfg: %d rows" % len(rows))
+        _table(ctx, b, "quorum", "hdr", rows, variants, stats)
+        routers = routers + ["quorum"]
     ctx.cov["evaluations"] = stats["evaluations"]
     ctx.cov["distinct_nontrivial"] = max(stats["classes"].values())
     return ctx.finish(rule="P-TABLE: one row per claim descriptor (height in {below genesis, around the confirmation boundary, head, head+1} x "
                       "{canonical state at that height, state of a stored non-canonical header, state of no header} x 7 account-proof kinds x "
                       "7 storage-proof kinds x 2 messages), each concretized in %d random worlds; distinct_nontrivial = distinct "
                       "(height class, world, kinds, message, verdict) classes other than the plain valid claim." % variants,
-                      extra={"routers_covered": routers, "routers_uncovered": UNCOVERED + ([] if not q else ["bytom, hsc, pixie: thorough tier"])},
+                      extra={"routers_covered": routers, "routers_uncovered": UNCOVERED + ([] if not q else ["bytom, hsc, pixie, msc, bor, quorum: thorough tier"])},
                       assumptions=["confirmation rule as coded: head - height >= BlocksToWait - 1 (BlocksToWait >= 1)",
                                    "the storage slot is not part of the property: any slot of the registered contract holding Keccak(message) is accepted",
                                    "keccak / MPT hashing are collision resistant (free term algebra in the model, real keccak in the driver)",
+                                   "quorum: validator set of 4 (F = 1: proposer seal + one committed seal suffice, as coded); the seal-count rule itself is not part of C23",
                                    "eth: the Ethash seal decision is taken by the verif hook, everything else in header sync is real"])
